@@ -185,6 +185,10 @@ class AlgDomain(EventsMixin, Domain):
       return UNKNOWN
     if isinstance(a, Vec) and isinstance(b, Poly):
       a, b = b, a
+    if isinstance(a, Poly) and isinstance(b, Vec) and \
+            a.kind in ('vec', 'rows') and b.orient in ('v', 'row'):
+      # element-wise scaling of (row) vectors: x Diag(s)
+      return a.mul(Poly.diag(b.sx), a.kind)
     if isinstance(a, Poly) and isinstance(b, Vec) and a.kind == 'mat':
       d = Poly.diag(b.sx)
       if b.orient in ('v', 'row'):
@@ -224,6 +228,8 @@ class AlgDomain(EventsMixin, Domain):
     if ka == 'mat' and kb == 'vec':
       # A.dot(v) for 1-D v is (v A^T) as a 1-D array
       return b.mul(a.transpose(), 'vec')
+    if ka == 'mat' and kb == 'cols':
+      return a.mul(b, 'cols')
     if ka == 'rows' and kb == 'cols':
       return UNKNOWN
     return UNKNOWN
@@ -636,7 +642,16 @@ class AlgDomain(EventsMixin, Domain):
     if name in ('copy', 'squeeze', 'conj', 'conjugate') and not args:
       return d
     if name == 'astype':
-      return d
+      a0 = args[0] if args else kwargs.get('dtype')
+      is_float = a0 is not None and (
+          (a0.fn and a0.fn[0] == 'ext' and a0.fn[1] in (
+              'builtins.float', 'numpy.float64', 'numpy.float_')) or
+          a0.const() in ('float', 'float64', 'f8'))
+      if is_float or not isinstance(d, Poly):
+        return d
+      # cast to a dtype that is not certainly float64 (e.g. the dtype of
+      # the data): may truncate - a different matrix
+      return Poly.sym('cast(%s)' % self._name_of(d), d.kind)
     if name == 'transpose' and not args:
       return self.attr(recv, 'T', node, st)
     if name == 'mean' and not args and not kwargs:
